@@ -55,6 +55,14 @@ def reduceMul (mul : ZPoly → ZPoly → ZPoly) (l : List ZPoly) (self : ZPoly) 
   | [] => none
   | a :: t => some ((t ++ [self]).foldl mul a)
 
+/-- `reduce(step, pairs)` without an initial value, over a sequence known to be non-empty (the translator demands a
+    dominating `if not self._data: return` and a length-preserving path from `self._data` to `pairs`); the
+    `TypeError` of the empty sequence is outside -/
+def reduce1 (f : Int × PyNum → Int × PyNum → Int × PyNum) (l : List (Int × PyNum)) : Int × PyNum :=
+  match l with
+  | [] => (0, .int 0)
+  | h :: t => t.foldl f h
+
 /-- the result of the translated `__pow__` in the model's result type -/
 def toPowRes : Except PyErr (Option ZPoly) → PowRes
   | .error e => .err e
